@@ -70,7 +70,13 @@ pub fn materialise(g: &G, root: &Path) -> std::io::Result<()> {
     std::fs::create_dir_all(root)?;
     for i in 0..g.n {
         let deps: Vec<usize> = g.edges.iter().filter(|(u, _)| *u == i).map(|(_, v)| *v).collect();
-        let dir = if i % 2 == 0 { root.join(format!("buildpacks/bp{i}")) } else { root.join(format!("nested/deeper/bp{i}")) };
+        // every other node from the third on lives BELOW the directory of an earlier libcnb.rs crate buildpack (the layout
+        // of test fixtures: <crate>/tests/fixtures/<buildpack>), if that earlier node is a crate buildpack
+        let host = if i >= 2 && (i + g.edges.len()) % 2 == 0 { crate_dir_of(g, i - 2, root) } else { None };
+        let dir = match host {
+            Some(h) => h.join(format!("tests/fixtures/bp{i}")),
+            None => plain_dir_of(i, root),
+        };
         std::fs::create_dir_all(&dir)?;
         let id = node_id(i);
         let has_package_toml = !deps.is_empty() || g.dangling == Some(i) || i % 3 == 2;
@@ -123,6 +129,19 @@ pub fn materialise(g: &G, root: &Path) -> std::io::Result<()> {
     std::fs::create_dir_all(&decoy2)?;
     std::fs::write(decoy2.join("buildpack.toml"), "this is = not [valid\n")?;
     Ok(())
+}
+
+fn plain_dir_of(i: usize, root: &Path) -> std::path::PathBuf {
+    if i % 2 == 0 { root.join(format!("buildpacks/bp{i}")) } else { root.join(format!("nested/deeper/bp{i}")) }
+}
+
+/// directory of node k if it is materialised as a libcnb.rs crate buildpack at its plain location
+fn crate_dir_of(g: &G, k: usize, root: &Path) -> Option<std::path::PathBuf> {
+    let deps = g.edges.iter().filter(|(u, _)| *u == k).count();
+    let has_package_toml = deps > 0 || g.dangling == Some(k) || k % 3 == 2;
+    let component_with_deps = has_package_toml && (k + g.edges.len()) % 3 == 1;
+    let nested_itself = k >= 2 && (k + g.edges.len()) % 2 == 0;
+    if (!has_package_toml || component_with_deps) && !nested_itself { Some(plain_dir_of(k, root)) } else { None }
 }
 
 fn closure(g: &G, roots: &[usize]) -> BTreeSet<usize> {
@@ -323,7 +342,7 @@ fn rand_graph_strategy() -> impl Strategy<Value = RandG> {
 }
 
 pub fn run(ctx: &Ctx) {
-    ctx.set_rule("exhaustive: every labelled DAG on n <= 4 (quick) / n <= 5 (thorough) nodes, materialised as a directory of composite / libcnb.rs buildpacks (ids with '/', decoy non-libcnb buildpacks, docker/path/https dependencies, an unparsable buildpack.toml) and read back through build_libcnb_buildpacks_dependency_graph, x every non-empty ordered selection of distinct roots plus selections with a repeated root, through get_dependencies; random DAGs on 6..12 nodes with duplicate dependency entries; graphs with one dangling libcnb: dependency. Oracle: validity predicate (output set = reflexive-transitive closure of the roots, no element twice, every dependency before its dependents), dangling => error. Non-trivial: a dependency path of length >= 2 below a selected root, or a node with in-degree >= 2 reachable from >= 2 selected roots; distinct = hash of (graph, selection).");
+    ctx.set_rule("exhaustive: every labelled DAG on n <= 4 (quick) / n <= 5 (thorough) nodes, materialised as a directory of composite / libcnb.rs buildpacks (ids with '/', decoy non-libcnb buildpacks, docker/path/https dependencies, an unparsable buildpack.toml, buildpacks nested below another crate buildpack's tests/fixtures directory) and read back through build_libcnb_buildpacks_dependency_graph, x every non-empty ordered selection of distinct roots plus selections with a repeated root, through get_dependencies; random DAGs on 6..12 nodes with duplicate dependency entries; graphs with one dangling libcnb: dependency. Oracle: validity predicate (output set = reflexive-transitive closure of the roots, no element twice, every dependency before its dependents), dangling => error. Non-trivial: a dependency path of length >= 2 below a selected root, or a node with in-degree >= 2 reachable from >= 2 selected roots; distinct = hash of (graph, selection).");
     ctx.assume("input graphs are acyclic (the property quantifies over acyclic sets)");
     ctx.set_exhaustive(true);
     ctx.extra("exhaustive_subspace", json!("all labelled DAGs up to the stated node count x all ordered root selections; random larger graphs are sampled"));
